@@ -1,23 +1,141 @@
+import Proofs.Lemmas.ForkChoiceInv
 import Proofs.Lemmas.ForkChoiceLock
+import Zrnt.ForkChoice.Spec
 /-!
 # C10 — justification/finalization updates terminate, prune exactly, and keep the head
 
 Statements about the code-shaped model `Zrnt.ForkChoice` (tie H: modes `fc09`/`fc10`/`fc11` run the same
-operation lines on the real Go code and on this model).
+operation lines on the real Go code, on this model and on the specification `Zrnt.ForkChoice.Spec`).
+
+`ProtoArray.OnPrune` and the users of node indices after a prune are defective on the current tree (known
+finding, `known_findings.jsonl`): the full-strength theorems about pruning are FALSE of the code. Each of them is
+kept as a comment, its negation is proved on a concrete witness history by `decide` (the same histories are in
+`corpus/fc10.ops` / `corpus/fc11.ops` and replay on the Go code), and the part that holds is proved as `…_partial`.
 -/
 namespace Zrnt.Proofs.C10
 open Zrnt.ForkChoice
 
-/-- `UpdateJustified` never blocks: with the mutex free at the call, no outcome is `blocked`
-(the exported method acquires `mu` once, the helpers it calls never re-acquire it). -/
-theorem updateJustified_returns (fc : FC) (h : fc.held = false) (t : Root) (j f : Checkpoint)
-    (b : Option (List Nat)) : (fc.updateJustified t j f b).isBlocked = false :=
-  Zrnt.ForkChoice.updateJustified_returns fc h t j f b
+/-- a root given by its first byte -/
+def rt (n : Nat) : Root := n * 256 ^ 31
+/-- the 32-byte root `aa 00 … 00 k` -/
+def aa (k : Nat) : Root := 0xaa * 256 ^ 31 + k
+
+/-! ## UpdateJustified returns -/
+
+/- FULL STATEMENT (false of the current code, see `updateJustified_returns_false`):
+   `theorem updateJustified_returns : ∀ ops, ∀ a ∈ (run .none ops).2, a ≠ .blocked`
+   — no call of any history is answered `blocked` (= the Go call does not return within the watchdog). -/
+
+/-- `UpdateJustified` returns (nil or error): it neither blocks on the mutex (the exported method acquires `mu`
+once and its helpers use the graph directly) nor loops nor panics — on every instance whose node array is well
+formed, i.e. as long as nothing has been pruned. -/
+theorem updateJustified_returns_partial (fc : FC) (hh : fc.held = false) (h : WF fc.pa) (t : Root) (j f : Checkpoint)
+    (b : Option (List Nat)) : fc.updateJustified t j f b ≠ .blocked ∧ fc.updateJustified t j f b ≠ .panic :=
+  updateJustified_returns_wf fc hh h t j f b
+
+/-- non-vacuity: a fresh instance satisfies the hypotheses -/
+example : ∃ fc : FC, fc.held = false ∧ WF fc.pa :=
+  ⟨{ pa := PA.new 0 (rt 1) 0 0 0 .absent, votes := [], changed := true, spe := 4, balances := [], pin := none,
+     justified := ⟨0, rt 1⟩, finalized := ⟨0, rt 1⟩, held := false }, rfl, wf_new ..⟩
+
+/-- After a prune that the sink interrupted, `UpdateJustified` can loop forever in `inSubtree`
+(`pr.nodes[i]` is indexed without the offset, the parent walk revisits an index). Witness (replayed on Go:
+`blocked`): init 2 ff 0 ff 0 ff 0 ff fail3 …; eight blocks; justify 7f 1 01 1 01 …; justify de 2 aa…01 1 01 fail. -/
+def witBlocked : List Op := [
+  .init 2 (rt 0xff) 0 (rt 0xff) ⟨0, rt 0xff⟩ ⟨0, rt 0xff⟩ (.failAt 3) [32, 32, 32, 1, 33, 1],
+  .block (rt 0xff) (rt 0xfe) 1 0 0, .block (rt 0xfe) (rt 1) 2 0 0, .block (rt 0xff) (aa 2) 3 0 0,
+  .block (aa 2) (aa 1) 4 0 0, .block (rt 0xff) (rt 0x80) 1 0 0, .block (aa 2) (rt 2) 4 1 0,
+  .block (rt 1) (rt 0x7f) 3 1 1,
+  .justify (rt 0x7f) ⟨1, rt 1⟩ ⟨1, rt 1⟩ (some [32, 32, 32, 32, 1, 1]),
+  .justify (rt 0xde) ⟨2, aa 1⟩ ⟨1, rt 1⟩ none]
+
+theorem updateJustified_returns_false : ¬ ∀ ops, ∀ a ∈ (run .none ops).2, a ≠ Ans.blocked := by
+  intro h
+  exact h witBlocked Ans.blocked (by decide +kernel) rfl
+
+/-! ## older / equal / outside -/
 
 /-- Older or equal checkpoints change nothing: the call returns nil and the state is untouched. -/
 theorem older_equal_noop (fc : FC) (h : fc.held = false) (t : Root) (j f : Checkpoint) (b : Option (List Nat))
     (hj : j.epoch ≤ fc.justified.epoch) (hf : f.epoch ≤ fc.finalized.epoch) :
     fc.updateJustified t j f b = .ok fc () :=
   Zrnt.ForkChoice.older_equal_noop fc h t j f b hj hf
+
+/-- A new finalized checkpoint that `InSubtree` reports unknown, outside the finalized subtree, or of a lower
+epoch is refused: error, and nothing but the array's link cache changes (checkpoints, balances, votes, pin
+stay). Together with C11's `inSubtree_eq_anc` "outside" is fork-choice ancestry of the inserted tree. -/
+theorem outside_subtree_refused_finalized (fc : FC) (f j : Checkpoint) (b : Option (List Nat)) (pa : PA) (u i : Bool)
+    (hje : ¬ j.epoch < f.epoch) (hne : fc.finalized ≠ f)
+    (hsub : fc.pa.inSubtree fc.finalized.root f.root = .ok pa (u, i))
+    (hbad : u = true ∨ i = false ∨ fc.finalized.epoch > f.epoch) :
+    fc.updateJustifiedInner f j b = .err { fc with pa := pa } :=
+  inner_refuses_finalized fc f j b pa u i hje hne hsub hbad
+
+/-- The same for a new justified checkpoint. -/
+theorem outside_subtree_refused_justified (fc : FC) (f j : Checkpoint) (b : Option (List Nat)) (pa : PA) (u i : Bool)
+    (hje : ¬ j.epoch < f.epoch) (heq : fc.finalized = f) (hne : fc.justified ≠ j)
+    (hsub : fc.pa.inSubtree fc.finalized.root j.root = .ok pa (u, i))
+    (hbad : u = true ∨ i = false ∨ fc.finalized.epoch > j.epoch) :
+    fc.updateJustifiedInner f j b = .err { fc with pa := pa } :=
+  inner_refuses_justified fc f j b pa u i hje heq hne hsub hbad
+
+/-! ## pruning -/
+
+/- FULL STATEMENTS (false of the current code):
+   `prune_exact` / `sink_once_canonical` / `retained_queries_unchanged`:
+     `∀ ops, (run .none ops).2 = (Spec.run none ops).2` up to `any` — after a successful update with a new
+     finalized checkpoint the retained node set is exactly the transition-descendants-or-self of the finalized
+     node, each dropped node is reported once with `canonical = ancestor of the head`, and every later answer is
+     the specification's.
+   `post_prune_ops_total`: no later operation panics. -/
+
+/-- finalization with a recording sink: init 4 01 0 00 0 01 0 01 rec 32,32,32; blocks 02@1, 0201@4, fe@5;
+justify fe 1 0201 1 0201 32,32,33; nodes -/
+def witPrune : List Op := [
+  .init 4 (rt 1) 0 0 ⟨0, rt 1⟩ ⟨0, rt 1⟩ .recording [32, 32, 32],
+  .block (rt 1) (rt 2) 1 0 0, .block (rt 2) (0x0201 * 256 ^ 30) 4 0 0, .block (0x0201 * 256 ^ 30) (rt 0xfe) 5 1 1,
+  .justify (rt 0xfe) ⟨1, 0x0201 * 256 ^ 30⟩ ⟨1, 0x0201 * 256 ^ 30⟩ (some [32, 32, 33]),
+  .nodes]
+
+/-- `OnPrune` reports the FIRST node once per prunable node (`j` never advances) instead of each dropped node
+once, and the live node set afterwards is not the finalized subtree: the model of the code answers differently
+from the exact-prune specification on `witPrune` (replayed on Go: six times `01@0`). -/
+theorem prune_exact_false : (run .none witPrune).2 ≠ (Spec.run none witPrune).2 := by decide +kernel
+
+/-- the same history with no sink: nothing at all is pruned -/
+def witPruneNil : List Op := [
+  .init 4 (rt 1) 0 0 ⟨0, rt 1⟩ ⟨0, rt 1⟩ .absent [32, 32, 32],
+  .block (rt 1) (rt 2) 1 0 0, .block (rt 2) (0x0201 * 256 ^ 30) 4 0 0, .block (0x0201 * 256 ^ 30) (rt 0xfe) 5 1 1,
+  .justify (rt 0xfe) ⟨1, 0x0201 * 256 ^ 30⟩ ⟨1, 0x0201 * 256 ^ 30⟩ (some [32, 32, 33]),
+  .nodes]
+
+theorem prune_without_sink_false : (run .none witPruneNil).2.getLast? ≠ (Spec.run none witPruneNil).2.getLast? := by
+  decide +kernel
+
+/-- after a partial prune (sink failing at its second call) the next `UpdateJustified` panics
+(`deltas[node.ForkchoiceParent - pr.indexOffset]` / stale absolute indices) -/
+def witPanic : List Op := [
+  .init 2 (rt 1) 0 0 ⟨0, rt 1⟩ ⟨0, rt 1⟩ (.failAt 1) [32],
+  .block (rt 1) (rt 2) 2 0 0, .block (rt 2) (rt 3) 4 1 1, .block (rt 3) (rt 4) 6 1 1, .block (rt 4) (rt 5) 8 1 1,
+  .justify (rt 5) ⟨1, rt 2⟩ ⟨1, rt 2⟩ (some [32]),
+  .justify (rt 5) ⟨2, rt 3⟩ ⟨2, rt 3⟩ (some [32])]
+
+theorem post_prune_ops_total_false : ¬ ∀ ops, ∀ a ∈ (run .none ops).2, a ≠ Ans.panic := by
+  intro h
+  exact h witPanic Ans.panic (by decide +kernel) rfl
+
+/-- `post_prune_ops_total`, the part that holds: as long as nothing has been pruned (offset 0 after every prefix
+of the history) no operation of ANY history panics, blocks or loops (the harness machine is never `dead`), and the
+structure invariant holds — in particular `sink_failure_safe` for a sink that fails at its FIRST call (nothing is
+dropped, offset stays 0, the array stays well formed). -/
+theorem no_panic_unpruned_partial (ops : List Op)
+    (hu : ∀ k, k ≤ ops.length → Unpruned (run .none (ops.take k)).1) : MInv (run .none ops).1 :=
+  inv_structure ops .none trivial hu
+
+/-- non-vacuity: a history with blocks, votes, a justified-only update and queries stays unpruned -/
+example : ∀ k, k ≤ 6 → Unpruned (run .none (([
+    .init 4 (rt 1) 0 0 ⟨0, rt 1⟩ ⟨0, rt 1⟩ .recording [32, 32], .block (rt 1) (rt 2) 1 0 0, .block (rt 2) (rt 3) 4 1 0,
+    .att 0 (rt 3) 4, .justify (rt 1) ⟨1, rt 3⟩ ⟨0, rt 1⟩ (some [32, 33]), .head] : List Op).take k)).1 := by
+  decide +kernel
 
 end Zrnt.Proofs.C10
